@@ -24,16 +24,24 @@ ASSUMPTIONS = ["argparse is the command-line parser", "keys are identifiers that
 KEYS = ["a", "b_c", "port"]
 CMD_VALUE = {"Int": ("7", 7), "Str": ("hello", "hello"), "Float": ("2.5", 2.5), "Include": ("inc.cfg", "inc.cfg"),
              # an empty value is a value; string fields with choices normalise what the user typed before judging it
-             "Number": ("8", 8), "Limit": ("50", 50), "Bounded": ("5", 5), "StrEmpty": ("", ""), "Level": ("DEBUG", "debug"), "Mode": (" Production ", "production"), "Choice": (" B ", "b")}
+             "Number": ("8", 8), "Limit": ("50", 50), "Bounded": ("5", 5), "StrEmpty": ("", ""), "Level": ("DEBUG", "debug"), "Mode": (" Production ", "production"), "Choice": (" B ", "b"),
+             # required fields without a default: the value normally comes from the configuration file, so the option stays optional
+             "Required": ("9", 9), "ReqStr": ("given", "given")}
 ASSIGN = {"Int": 3, "Str": "s", "Float": 1.25, "Bool": None, "List": [2], "Include": "inc2.cfg", "Number": 4, "Limit": 40, "Bounded": 3, "StrEmpty": "s", "Level": "error", "Mode": "development",
-          "Choice": "a"}
+          "Choice": "a", "Required": 6, "ReqStr": "file"}
 # schemas holding an include field (a persistent string-valued scalar like any other file name field)
 INCLUDE_SPECS = [[["a", "Include"]], [["a", "Int"], ["b_c", "Include"]], [["a", [["a", "Include"]]]],
                  [["a", [["a", "Int"], ["b_c", "Include"]]], ["b_c", "Bool"]], [["a", [["a", [["a", "Include"]]], ["b_c", "Bool"]]]]]
 ENV_OPTS = [False, True, "C16PFX", None]
 VALUE_SPECS = [[["a", "Limit"], ["b_c", "Bounded"]], [["a", [["a", "Limit"], ["b_c", "Bounded"]]], ["b_c", "Str"]], [["b_c", [["a", [["a", "Limit"], ["b_c", "Bounded"]]]]]],
                [["a", "Number"]], [["a", [["a", "Number"], ["b_c", "Bool"]]]], [["a", "StrEmpty"]], [["a", "Level"], ["b_c", "Mode"]], [["a", [["a", "Choice"], ["b_c", "StrEmpty"]]], ["b_c", "Level"]],
-               [["a", [["a", [["a", "Mode"]]], ["b_c", "Int"]]], ["port", "Choice"]]]
+               [["a", [["a", [["a", "Mode"]]], ["b_c", "Int"]]], ["port", "Choice"]],
+               [["a", "Required"]], [["a", [["a", "Required"], ["b_c", "Bool"]]], ["b_c", "ReqStr"]], [["a", "ReqStr"], ["b_c", [["a", [["a", "Required"]]]]]]]
+
+
+# sections without any declared field: created by a bare attribute access / mounted explicitly (also as a dynamic section)
+EMPTY_SPECS = [[["a", []]], [["a", "Int"], ["b_c", []]], [["a", [["a", []], ["b_c", "Bool"]]]], [["a", [["a", "Int"]]], ["b_c", []]],
+               [["a", "EmptyDyn"]], [["a", "Str"], ["b_c", "EmptyDyn"]], [["a", [["a", "EmptyDyn"], ["b_c", "Int"]]]], [["a", [["a", [["a", []]]]]]]]
 
 
 def schema_specs(tier):
@@ -110,6 +118,8 @@ def _fill(s, spec, ctr, explicit=None):
             _fill(sub, kind, ctr, explicit)
         elif isinstance(kind, list):
             _fill(getattr(s, key), kind, ctr)
+        elif kind == "EmptyDyn":
+            setattr(s, key, cc.Schema(dynamic=True))
         elif kind == "Include":
             setattr(s, key, cc.IncludeField())
         elif kind == "Limit":
@@ -119,6 +129,10 @@ def _fill(s, spec, ctr, explicit=None):
             setattr(s, key, cc.IntField(default=1, validator=_bounded))
         elif kind == "Number":
             setattr(s, key, cc.NumberField(int, default=1))           # the generic number class, not one of its named subclasses
+        elif kind == "Required":
+            setattr(s, key, cc.IntField(required=True))
+        elif kind == "ReqStr":
+            setattr(s, key, cc.StringField(required=True))
         elif kind == "StrEmpty":
             setattr(s, key, cc.StringField(default="d"))
         elif kind == "Level":
@@ -154,6 +168,8 @@ def paths(spec, pre=""):
         if isinstance(kind, list):
             out.append((p, "Schema"))
             out += paths(kind, p + ".")
+        elif kind == "EmptyDyn":
+            out.append((p, "Schema"))
         else:
             out.append((p, kind))
     return out
@@ -176,7 +192,7 @@ def bounds(tier):
 def jobs(tier):
     specs = schema_specs(tier)
     n = 64 if tier == "thorough" else 16
-    return [{"name": "schemas/%02d" % c, "specs": specs[c::n]} for c in range(n) if specs[c::n]] + [{"name": "schemas/include", "specs": INCLUDE_SPECS}, {"name": "schemas/values", "specs": VALUE_SPECS}]
+    return [{"name": "schemas/%02d" % c, "specs": specs[c::n]} for c in range(n) if specs[c::n]] + [{"name": "schemas/include", "specs": INCLUDE_SPECS}, {"name": "schemas/values", "specs": VALUE_SPECS}, {"name": "schemas/empty-sections", "specs": EMPTY_SPECS}]
 
 
 def run_job(job, ctx):
